@@ -536,4 +536,32 @@ theorem stepFile_handles (plevel pidx : ν → Nat) (indexOf : ν → ι) (entri
 
 end Recover
 
+/-! ### `levelManager.overlapLN` -/
+
+/-- the translated `overlapLN`: the tables of the level whose key range meets `[start, end]`, in the order of the level — a
+    filter, hence a sublist of the level's tables -/
+theorem overlapLN_eq {τ : Type} (sb ea : τ → Bool) (tables : List τ) :
+    GenLevel.overlapLN sb ea tables = tables.filter (fun t => sb t && ea t) := by
+  unfold GenLevel.overlapLN
+  have h : ∀ (acc : List τ), List.foldr (fun e kont1 => fun (overlaps : List τ) =>
+      if (sb e && ea e) = true then kont1 (overlaps ++ [e]) else kont1 overlaps) (fun overlaps => overlaps) tables acc =
+      acc ++ tables.filter (fun t => sb t && ea t) := by
+    induction tables with
+    | nil => intro acc; simp
+    | cons t rest ih =>
+      intro acc
+      simp only [List.foldr_cons, List.filter_cons]
+      cases hc : (sb t && ea t)
+      · simp only [Bool.false_eq_true, ↓reduceIte]; exact ih acc
+      · simp only [↓reduceIte]; rw [ih]; simp
+  cases tables with
+  | nil => simp
+  | cons t rest =>
+    simp only [List.length_cons, Nat.add_one_ne_zero, decide_false, Bool.false_eq_true, ↓reduceIte]
+    simpa using h []
+
+theorem overlapLN_sublist {τ : Type} (sb ea : τ → Bool) (tables : List τ) :
+    (GenLevel.overlapLN sb ea tables).Sublist tables := by
+  rw [overlapLN_eq]; exact List.filter_sublist
+
 end LevelTie
